@@ -1017,9 +1017,9 @@ func (e *Engine) runAts(st *State, in ssa.Instruction, after bool) {
 		if isAfter != after {
 			continue
 		}
-		if strings.HasSuffix(a, "#*") {
-			// "call F#*": every occurrence of the anchor
-			if i := strings.LastIndex(name, "#"); i < 0 || name[:i] != strings.TrimSuffix(a, "#*") {
+		if strings.HasSuffix(a, "#*") || strings.HasSuffix(a, "#?") {
+			// "call F#*": every occurrence of the anchor (at least one must exist); "call F#?": every occurrence, if any
+			if i := strings.LastIndex(name, "#"); i < 0 || name[:i] != a[:len(a)-2] {
 				continue
 			}
 		} else if a != name && !(strings.HasSuffix(name, "#1") && strings.TrimSuffix(name, "#1") == a) {
